@@ -24,17 +24,8 @@ def firstSuccess (test : J → List (Ev J) × Except Exc J) : List (MNode J) →
 /-- `has(path [<op> v] [, f1, …, fn])` at candidate `c`: some value selected by `path`
 relative to `c` makes `op (f1 (… (fn x)))` truthy. -/
 def hasS (steps : List (Step J)) (op : Option Fn) (fns : List Fn) : Pred J := fun c =>
-  let test : J → List (Ev J) × Except Exc J := fun x =>
-    match op, fns with
-    | none, [] => ([], .ok (.bool true))
-    | _, _ =>
-      let (evs, r) := applyFns fns x
-      match r, op with
-      | .ok v, some o => (evs, o.run v)
-      | .ok v, none => (evs, .ok v)
-      | .error e, _ => (evs, .error e)
   let r := evalE steps (.imag c)
-  let o := firstSuccess test r.1 r.2
+  let o := firstSuccess (hasTest op fns) r.1 r.2
   { evs := o.1, res := o.2 }
 
 end Treepath
